@@ -79,6 +79,35 @@ class FuncInfo:
         walk(self.node.body, 0)
         return hashlib.sha256(" ".join(out).encode()).hexdigest()[:16]
 
+    def locals_order(self):
+        """Local names in order of their first binding (parameters excluded)."""
+        params = {a.arg for a in self.node.args.args + self.node.args.kwonlyargs}
+        if self.node.args.vararg:
+            params.add(self.node.args.vararg.arg)
+        if self.node.args.kwarg:
+            params.add(self.node.args.kwarg.arg)
+        out = []
+        for n in ast.walk(self.node):
+            pass
+        # ast.walk is breadth-first; first *textual* binding is what is wanted: sort Store occurrences by position
+        occ = [(n.lineno, n.col_offset, n.id) for n in ast.walk(self.node)
+               if isinstance(n, ast.Name) and isinstance(n.ctx, ast.Store) and n.id not in params]
+        for _l, _c, name in sorted(occ):
+            if name not in out:
+                out.append(name)
+        return out
+
+    def alpha_hash(self):
+        """Hash of the function with its local names replaced by their binding position: equal for two versions of a
+        function that differ only by a consistent renaming of locals."""
+        order = {n: i for i, n in enumerate(self.locals_order())}
+        import copy as _copy
+        node = _copy.deepcopy(self.node)
+        for n in ast.walk(node):
+            if isinstance(n, ast.Name) and n.id in order:
+                n.id = f"$L{order[n.id]}"
+        return hashlib.sha256(ast.dump(node).encode()).hexdigest()[:16]
+
     def source_hash(self):
         return hashlib.sha256(ast.dump(self.node).encode()).hexdigest()[:16]
 
